@@ -64,7 +64,10 @@ impl Hooks for ModelHooks {
     }
 
     fn now(&self) -> Duration {
-        self.inner.now()
+        let t = self.inner.now();
+        let ahead = t.saturating_sub(self.inner.sched.now());
+        self.sh.clock_ahead_ns.store(ahead.as_nanos() as u64, std::sync::atomic::Ordering::Relaxed);
+        t
     }
 
     fn timer(&self, deadline: Duration, waker: &std::task::Waker) {
@@ -158,7 +161,7 @@ fn blocking_op(sh: &ShRef, sched: &SchedRef, a: usize, sender: &Arc<Sender<Chan>
                         w.out.probe("blocking_flush_true");
                     } else {
                         w.out.probe("blocking_flush_timed_out");
-                        if waited < timeout && !w.torn_down {
+                        if waited + sh.clock_ahead() < timeout && !w.torn_down {
                             w.out.violate(
                                 "C08",
                                 "flush_gave_up_early",
@@ -225,6 +228,9 @@ impl Engine for ChanThreads {
             });
         }
         let sched = Sched::new(std::mem::replace(ch, Choices::from_record(&[])), ctx.want_trace, 60_000);
+        // running code takes time: in half of the runs consecutive clock readings differ (by a nanosecond)
+        let reading_cost = sched.chance(1, 2);
+        sched.lock().clock_reading_cost_ns = if reading_cost { 1 } else { 0 };
         let (sender, receiver): (Sender<Chan>, Receiver<Chan>) = emit_batcher::bounded(cap);
         let sh: ShRef = {
             let s1 = sched.clone();
@@ -237,6 +243,7 @@ impl Engine for ChanThreads {
                 yielder: Some(Arc::new(move |why| s2.yield_point(why))),
                 sender: Mutex::new(Some(Arc::new(sender))),
                 actors: Mutex::new(actors),
+                clock_ahead_ns: std::sync::atomic::AtomicU64::new(0),
             })
         };
         w(&sh, |w| {
